@@ -91,7 +91,11 @@ func initDate() {
 		"+",
 		func(_ *Thread, args []value.Value) (value.Value, value.Value) {
 			self := args[0].AsDate()
-			return self.AddDateSpan(args[1].AsDateSpan()).ToValue(), value.Undefined
+			result, err := self.AddDateSpan(args[1].AsDateSpan())
+			if !err.IsUndefined() {
+				return value.Undefined, err
+			}
+			return result.ToValue(), value.Undefined
 		},
 		DefWithParameters(1),
 	)
